@@ -10,8 +10,8 @@ NoneAlign == <<9, 9>>                  \* preserveAspectRatio="none" (TLC cannot
 Aligns == {NoneAlign} \cup {<<ax, ay>> : ax \in 0..2, ay \in 0..2}     \* 0 = min, 1 = mid, 2 = max
 MoS == {"meet", "slice", "absent"}
 \* what the attribute text looks like (rendered to strings by the harness)
-VBKinds == {"ok", "none", "three_numbers", "empty", "non_numeric", "zero_width", "negative_height", "negative_both",
-            "zero_doc_width", "negative_doc_height", "negative_doc_both"}
+VBKinds == {"ok", "none", "three_numbers", "empty", "non_numeric", "zero_width", "zero_height", "negative_width", "negative_height", "negative_both",
+            "zero_doc_width", "zero_doc_height", "negative_doc_width", "negative_doc_height", "negative_doc_both"}
 
 Identity == [sx |-> RI(1), sy |-> RI(1), tx |-> RI(0), ty |-> RI(0), ident |-> TRUE]
 Frac(a) == R(a, 2)
